@@ -218,6 +218,12 @@ def family_c11():
                             'defs': list(defs)})
                 out.append({'command': 'cmd', 'variants': [gram.Seq(gram.Ref('W'), gram.Lit('z'))],
                             'defs': [('W', None, gram.Alt(gram.Seq(gram.Lit('x'), gram.Ref(name)), gram.Lit('y')))] + list(defs)})
+                # several references to the same name: at top level twice, inside a word, and through a definition
+                out.append({'command': 'cmd', 'variants': [gram.Seq(gram.Ref(name), gram.Lit('m'), gram.Ref(name),
+                                                                    gram.Sub(gram.Lit('p='), gram.Ref(name)), gram.Ref('W'))],
+                            'defs': [('W', None, gram.Alt(gram.Seq(gram.Lit('x'), gram.Ref(name)), gram.Lit('y')))] + list(defs)})
+                out.append({'command': 'cmd', 'variants': [gram.Seq(gram.Lit('a'), gram.Ref(name)), gram.Seq(gram.Lit('b'), gram.Ref(name))],
+                            'defs': list(defs)})
     return out
 
 
@@ -225,7 +231,7 @@ def check_C11(tier, seed):
     fam = family_c11()
     rep = run_e3('C11', tier, seed, [('definition-subsets', fam)], props=('C11',))
     rep.coverage['exhaustive'] = True
-    rep.assumptions.append('the dimension the property is about (which definitions exist) is enumerated exhaustively (3 names x 32 subsets x 3 positions x 4 shells); '
+    rep.assumptions.append('the dimension the property is about (which definitions exist) is enumerated exhaustively (3 names x 32 subsets x 5 reference patterns x 4 shells); '
                            'the solver decides that the chosen command sits at exactly the right places for every word sequence')
     return rep
 
@@ -322,6 +328,10 @@ def family_c01(tier, seed):
         gram.mk('cmd', S(Ref('N'), Many(A(L('p'), Ref('M')))), [('N', None, A(L('u'), S(L('v'), Ref('M')))), ('M', None, Sub(L('m:'), A(L('1'), L('2'))))]),
         gram.mk('cmd', S(L('a=b'), A(L('c:d'), L('c:e')), L('x'))),
         gram.mk('cmd', S(Sub(L('o:'), A(L('p=1'), L('q=2'))), L('x'))),
+        # typed words with two different word-break characters, in both orders
+        gram.mk('cmd', S(A(L('d=f:s'), L('d=f:l'), L('u:v=w')), L('x'))),
+        gram.mk('cmd', S(Sub(L('r='), A(L('o:m'), L('o:d'))), L('x'))),
+        gram.mk('cmd', S(Sub(L('t:'), A(L('a=1'), L('b=2')), Opt(Sub(L(':'), A(L('y'), L('n'))))), L('x'))),
         gram.mk('cmd', S(Ref('X'), L('z')), [('X', 'bash', Cmd(probe('c3'))), ('X', None, Cmd(probe('c4'))), ('X', 'zsh', Cmd(probe('c1')))]),
         gram.mk('cmd', S(L('f', 'descr f'), gram.Descr(A(L('g'), S(L('h'), L('i'))), 'dd'), L('z'))),
     ]
